@@ -11,6 +11,34 @@ use crate::runner::*;
 use std::collections::{BTreeMap, BTreeSet};
 use std::io;
 
+/// first statistics figure that differs from the figures recomputed from a decoded image
+pub fn stats_diff(st: &crate::handles::Stats, d: &Decoded) -> Option<(&'static str, String, String)> {
+    let hist = |it: &mut dyn Iterator<Item = u64>| -> Vec<(u64, u64)> {
+        let mut h: BTreeMap<u64, u64> = BTreeMap::new();
+        for x in it {
+            *h.entry(x).or_insert(0) += 1;
+        }
+        h.into_iter().collect()
+    };
+    let fk: Vec<(u32, u64)> = (0..16).map(|i| (CLASSES[i], d.key_free[i].len() as u64)).collect();
+    let fv: Vec<(u32, u64)> = (0..16).map(|i| (CLASSES[i], d.val_free[i].len() as u64)).collect();
+    let kps = hist(&mut d.keys.iter().filter(|k| !k.key.is_empty()).map(|k| k.size as u64));
+    let kls = hist(&mut d.keys.iter().filter(|k| !k.key.is_empty()).map(|k| k.key.len() as u64));
+    let vps = hist(&mut d.vals.values().filter(|v| v.len > 0).map(|v| v.size as u64));
+    let vls = hist(&mut d.vals.values().filter(|v| v.len > 0).map(|v| v.len as u64));
+    let fill = (d.nonempty_buckets, (d.nonempty_buckets * 1000 / d.buckets) as u32);
+    let pairs: [(&'static str, String, String); 7] = [
+        ("count_of_free_key_piece", format!("{:?}", st.free_key), format!("{:?}", fk)),
+        ("count_of_free_value_piece", format!("{:?}", st.free_val), format!("{:?}", fv)),
+        ("key_piece_size_stats", format!("{:?}", st.key_piece_sizes), format!("{:?}", kps)),
+        ("key_length_stats", format!("{:?}", st.key_lengths), format!("{:?}", kls)),
+        ("value_piece_size_stats", format!("{:?}", st.val_piece_sizes), format!("{:?}", vps)),
+        ("value_length_stats", format!("{:?}", st.val_lengths), format!("{:?}", vls)),
+        ("htx_filling_rate_per_mill", format!("{:?}", st.filling), format!("{:?}", fill)),
+    ];
+    pairs.into_iter().find(|(_, g, w)| g != w)
+}
+
 fn refusal_in_step() -> Option<String> {
     kernel::with(|k| {
         k.step_events
@@ -506,40 +534,39 @@ impl<'a> World<'a> {
             Err(Stop::Violation(v)) => return Err(Stop::Inconclusive(format!("image not decodable for the statistics comparison: {}", v.detail))),
             Err(e) => return Err(e),
         };
-        let hist = |it: &mut dyn Iterator<Item = u64>| -> Vec<(u64, u64)> {
-            let mut h: BTreeMap<u64, u64> = BTreeMap::new();
-            for x in it {
-                *h.entry(x).or_insert(0) += 1;
-            }
-            h.into_iter().collect()
-        };
-        let fk: Vec<(u32, u64)> = (0..16).map(|i| (CLASSES[i], d.key_free[i].len() as u64)).collect();
-        let fv: Vec<(u32, u64)> = (0..16).map(|i| (CLASSES[i], d.val_free[i].len() as u64)).collect();
-        let cmp = |name: &str, got: String, want: String, step: u32| -> StepResult {
-            if got != want {
-                Err(viol("stats", name.to_string(), step, format!("{name} reports {got}, files hold {want}")))
-            } else {
-                Ok(())
-            }
-        };
-        let s = self.step_no;
-        cmp("count_of_free_key_piece", format!("{:?}", st.free_key), format!("{:?}", fk), s)?;
-        cmp("count_of_free_value_piece", format!("{:?}", st.free_val), format!("{:?}", fv), s)?;
-        let kps = hist(&mut d.keys.iter().filter(|k| !k.key.is_empty()).map(|k| k.size as u64));
-        let kls = hist(&mut d.keys.iter().filter(|k| !k.key.is_empty()).map(|k| k.key.len() as u64));
-        let vps = hist(&mut d.vals.values().filter(|v| v.len > 0).map(|v| v.size as u64));
-        let vls = hist(&mut d.vals.values().filter(|v| v.len > 0).map(|v| v.len as u64));
-        cmp("key_piece_size_stats", format!("{:?}", st.key_piece_sizes), format!("{:?}", kps), s)?;
-        cmp("key_length_stats", format!("{:?}", st.key_lengths), format!("{:?}", kls), s)?;
-        cmp("value_piece_size_stats", format!("{:?}", st.val_piece_sizes), format!("{:?}", vps), s)?;
-        cmp("value_length_stats", format!("{:?}", st.val_lengths), format!("{:?}", vls), s)?;
-        let fill = (d.nonempty_buckets, (d.nonempty_buckets * 1000 / d.buckets) as u32);
-        cmp("htx_filling_rate_per_mill", format!("{:?}", st.filling), format!("{:?}", fill), s)?;
+        if let Some((name, got, want)) = stats_diff(&st, &d) {
+            // the figures may be right and the files stale (a flush that did not write is a
+            // durability matter): the driver re-checks against the closed image
+            self.pending_stats = Some((m, st));
+            return Err(viol("stats", name.to_string(), self.step_no, format!("{name} reports {got}, files hold {want}")));
+        }
         self.stats.probe("stats-compared");
-        if fk.iter().chain(fv.iter()).any(|x| x.1 > 0) {
+        if d.key_free.iter().chain(d.val_free.iter()).any(|l| !l.is_empty()) {
             self.stats.probe("stats-with-free-slots");
         }
         Ok(())
+    }
+
+    /// a statistics mismatch was seen against the flushed image: close everything and compare
+    /// the same figures with the closed image
+    pub fn recheck_stats_closed(&mut self, v: Violation) -> Stop {
+        let (m, st) = match self.pending_stats.take() {
+            Some(x) => x,
+            None => return Stop::Violation(v),
+        };
+        let saved = self.step_no;
+        if self.close_all().is_err() {
+            return Stop::Violation(v);
+        }
+        let r = self.decode_and_compare(m, "close");
+        self.step_no = saved;
+        match r {
+            Ok(d) => match stats_diff(&st, &d) {
+                None => Stop::Inconclusive(format!("the statistics match the closed files; flush() had not brought the files up to date ({}); durability is property C03", v.signature)),
+                Some(_) => Stop::Violation(v),
+            },
+            Err(_) => Stop::Violation(v),
+        }
     }
 
     // ---------------- isolation (C11) ----------------
@@ -647,7 +674,10 @@ pub fn run_once_until(ep: &Episode, env: &Env, dirbase: &'static str, only_updat
             w.step_no = i as u32;
             kernel::with(|k| k.set_step(i as u32));
             let calls_before = w.stats.api_calls;
-            w.exec(step)?;
+            match w.exec(step) {
+                Err(Stop::Violation(v)) if v.class == "stats" && w.pending_stats.is_some() => return Err(w.recheck_stats_closed(v)),
+                other => other?,
+            }
             if w.stop_after_step == Some(i as u32) {
                 // crash twin child: everything up to and including this sync call has returned
                 crate::xproc::wait_to_be_killed(&w);
